@@ -15,6 +15,7 @@ import (
 	"path/filepath"
 	"strings"
 	"sync"
+	"sync/atomic"
 	"time"
 )
 
@@ -44,6 +45,7 @@ var solvers = []solverSpec{
 var cacheDir = "/verif/.cache"
 var scratchDir string
 var cacheMu sync.Mutex
+var qCounter int64
 
 func initSolve() {
 	os.MkdirAll(cacheDir, 0o755)
@@ -62,7 +64,7 @@ func cleanupSolve() {
 
 func runOne(ctx context.Context, sp solverSpec, text string, timeoutS int, wantModel bool) Verdict {
 	h := sha256.Sum256([]byte(sp.name + text))
-	f := filepath.Join(scratchDir, hex.EncodeToString(h[:8])+"-"+sp.name+".smt2")
+	f := filepath.Join(scratchDir, fmt.Sprintf("%s-%d-%s.smt2", hex.EncodeToString(h[:8]), atomic.AddInt64(&qCounter, 1), sp.name))
 	body := text
 	if wantModel {
 		body += "\n(get-model)\n"
@@ -84,7 +86,7 @@ func runOne(ctx context.Context, sp solverSpec, text string, timeoutS int, wantM
 		first = strings.TrimSpace(first[:i])
 	}
 	v := Verdict{Solver: sp.name, Seconds: dt}
-	if first != "unsat" && first != "sat" && strings.Contains(s, "rror") {
+	if first != "unsat" && first != "sat" && first != "unknown" && first != "timeout" && strings.Contains(s, "rror") {
 		// a malformed query must never count as a proof (errors precede the verdict line)
 		if len(s) > 600 {
 			s = s[:600]
